@@ -239,15 +239,16 @@ type masterFooterXML struct {
 
 // masterParagraphXML represents a paragraph in header/footer.
 type masterParagraphXML struct {
-	StyleName string          `xml:"style-name,attr"`
-	Text      string          `xml:",chardata"`
-	Spans     []masterSpanXML `xml:"span"`
+	StyleName string
+	Content   []inlineXML // inline content in document order
 }
 
-// masterSpanXML represents a text span in header/footer paragraph.
-type masterSpanXML struct {
-	StyleName string `xml:"style-name,attr"`
-	Text      string `xml:",chardata"`
+// UnmarshalXML decodes a header/footer paragraph, keeping its inline content in document order.
+func (p *masterParagraphXML) UnmarshalXML(d *xml.Decoder, start xml.StartElement) error {
+	p.StyleName = attrValue(start, "style-name")
+	var err error
+	p.Content, err = decodeInlineContent(d)
+	return err
 }
 
 // metaXML represents document metadata from meta.xml.
